@@ -650,6 +650,16 @@ class Driver:
         elif a == "EditSpec":
             self.specv[h["t"]] += 1
             self.write_workflow()
+        elif a == "Rename":
+            if self.backend == "local":
+                return
+            # a new, never used name; what is stored under the old one is nobody's any more
+            self.renames = getattr(self, "renames", 0) + 1
+            old = self.perm[h["t"]]
+            self.perm = dict(self.perm)
+            self.perm[h["t"]] = "%s_r%d" % (old.split("_r")[0] if "_r" in old else old, self.renames)
+            self.inv = {v: k for k, v in self.perm.items()}
+            self.write_workflow()
         elif a == "SetUseHash":
             self.use_hash = bool(h["v"])
             self.write_conf()
@@ -823,7 +833,7 @@ class Driver:
                 self.step_clean(h)
             elif a == "Cancel":
                 self.step_cancel(h)
-            elif a in ("EditSource", "DeleteOutput", "EditSpec", "SetUseHash"):
+            elif a in ("EditSource", "DeleteOutput", "EditSpec", "SetUseHash", "Rename"):
                 self.step_env(h)
             elif a in ("JobStart", "JobEnd", "Purge", "JobInherit", "JobStick", "JobUnstick"):
                 self.step_sched(h)
